@@ -14,6 +14,9 @@
   5. `lex_complete_spaced`— completeness on the canonical rendering: any list of well-shaped tokens (ALL kinds, the
                             three delimited kinds included), written with single blanks, lexes back to itself.
   6. `lex_errors_are_syntax`, `compile_error_cats`, `invalidValue_only_sliceStep`, `invalidType_only_functionArgument`, …
+     `compile_lex_error` — an expression on which the lexer fails never compiles (parser-wide invariant,
+     `Proofs/ParserInv.lean`); `compile_ok_lexes` — whatever compiles is a whitespace-separated sequence of well-shaped
+     tokens.
   7. `json_decode_sound`  — `Json.decode s = some v → JsonText s` (RFC 8259 on bytes), and `isValidNumber_iff`:
                             the number scanner accepts exactly the RFC 8259 number grammar.
                             NOT proved: completeness of the whole decoder (`JsonText s → (Json.decode s).isSome` for
@@ -21,7 +24,8 @@
   8. regression witnesses `w_*`: concrete strings that used to compile to something else.
   9. `selectObjectLoop_bad_key`, `selectObjectLoop_no_colon`, `selectObjectLoop_bad_separator`,
      `selectObjectLoop_ok_inv`; `indexP` in three phases (`indexP_eq`, proved by `rfl`) with
-     `stepPhase_unexpected`, `stepPhase_unexpected_after_int`, `stopPhase_*`, `indexP_*`.
+     `stepPhase_unexpected`, `stepPhase_unexpected_after_int`, `stopPhase_*`, `indexP_*`, and the inversions
+     `stepPhase_ok_inv`, `stopPhase_ok_inv`, `indexP_ok_inv` (success only on the grammar's bracket specifiers).
 
   NOT proved: a context-free grammar for whole expressions with `compile e = ok ↔ e ∈ grammar`; the statement is
   covered at the lexical level (2–5), for the JSON literal decoder (7), for the error classification (6) and at the
@@ -31,6 +35,7 @@ import Jmes.Spec.Lexical
 import Jmes.Proofs.Lex
 import Jmes.Proofs.JsonGrammar
 import Jmes.Proofs.Pratt
+import Jmes.Proofs.ParserInv
 namespace Jmes.C04
 open Jmes Jmes.Parser Jmes.Pratt Jmes.Lexical
 set_option linter.unusedSimpArgs false
@@ -165,6 +170,28 @@ example : compile [0x23] = .error (.lex (.unexpectedRune 0x23)) := by
     have : lexAll [0x23] = ([], some (.unexpectedRune 0x23)) := by decide
     rw [this]
   exact this
+
+/-- **an expression with a lexical error never compiles** (the parser cannot stop before the error: it only stops at
+    the end marker, which the lexer does not produce once it has failed) -/
+theorem compile_lex_error {s : Bytes} {ts : List Token} {e : LexErr} (h : lexAll s = (ts, some e)) :
+    ∃ e', compile s = .error e' :=
+  ParserInv.parse_lex_error h
+
+/-- **every expression that compiles is a sequence of well-shaped tokens separated only by whitespace** -/
+theorem compile_ok_lexes {s : Bytes} {n : INode} (h : compile s = .ok n) :
+    ∃ ts, lexAll s = (ts, none) ∧ Lexes s ts := by
+  cases hl : lexAll s with
+  | mk ts eo =>
+    cases eo with
+    | none => exact ⟨ts, rfl, lexAll_concat hl⟩
+    | some e =>
+      obtain ⟨e', he⟩ := compile_lex_error hl
+      rw [he] at h; cases h
+
+-- `a #`: the lexer fails after the first token, the parser reports it
+example : lexAll [0x61, 0x20, 0x23] = ([⟨.unquotedIdentifier, [0x61]⟩], some (.unexpectedRune 0x23)) := by decide
+example : ∃ e', compile [0x61, 0x20, 0x23] = .error e' :=
+  compile_lex_error (ts := [⟨.unquotedIdentifier, [0x61]⟩]) (e := .unexpectedRune 0x23) (by decide)
 
 /-! ## 7. The JSON literal decoder accepts only JSON texts -/
 
@@ -401,6 +428,68 @@ theorem stepPhase_zero (child : Option INode) (hs hp : Bool) (start stop : Int) 
     (h1 : s.curr.type = .integerLiteral) (h2 : s.next.type = .closeSqBrace) (hi : parseInt64 s.curr.value = some 0) :
     stepPhase child hs hp start stop s = .error .invalidSliceStep := by
   simp [stepPhase, atoiP, bind_run, map_run, currType_run, nextType_run, currValue_run, fail_run, pure_run, h1, h2, hi]
+
+/-- **Inversion, third part of a slice**: after `start:stop:` the parser accepts only `]`, or an integer followed
+    by `]` -/
+theorem stepPhase_ok_inv (child : Option INode) (hs hp : Bool) (start stop : Int) (s : PState) (r : (INode × Bool) × PState)
+    (h : stepPhase child hs hp start stop s = .ok r) :
+    s.curr.type = .closeSqBrace ∨ (s.curr.type = .integerLiteral ∧ s.next.type = .closeSqBrace) := by
+  by_cases h1 : s.curr.type = .integerLiteral
+  · by_cases h2 : s.next.type = .closeSqBrace
+    · exact Or.inr ⟨h1, h2⟩
+    · rw [stepPhase_unexpected_after_int child hs hp start stop s h1 h2] at h; cases h
+  · by_cases h2 : s.curr.type = .closeSqBrace
+    · exact Or.inl h2
+    · rw [stepPhase_unexpected child hs hp start stop s h1 h2] at h; cases h
+
+theorem stopPhase_invalidIndex (child : Option INode) (hs : Bool) (start : Int) (s : PState)
+    (h1 : s.curr.type = .integerLiteral) (hi : parseInt64 s.curr.value = none) :
+    stopPhase child hs start s = .error .invalidIndex := by
+  simp [stopPhase, atoiP, bind_run, map_run, currType_run, nextType_run, currValue_run, fail_run, pure_run, h1, hi]
+
+/-- **Inversion, second part of a slice**: after `start:` the parser accepts only `]`, `:`, or an integer followed by
+    `]` or `:` -/
+theorem stopPhase_ok_inv (child : Option INode) (hs : Bool) (start : Int) (s : PState) (r : (INode × Bool) × PState)
+    (h : stopPhase child hs start s = .ok r) :
+    s.curr.type = .closeSqBrace ∨ s.curr.type = .colon ∨
+      (s.curr.type = .integerLiteral ∧ (s.next.type = .closeSqBrace ∨ s.next.type = .colon)) := by
+  by_cases h1 : s.curr.type = .integerLiteral
+  · cases hi : parseInt64 s.curr.value with
+    | none => rw [stopPhase_invalidIndex child hs start s h1 hi] at h; cases h
+    | some i =>
+      by_cases h2 : s.next.type = .closeSqBrace
+      · exact Or.inr (Or.inr ⟨h1, Or.inl h2⟩)
+      · by_cases h3 : s.next.type = .colon
+        · exact Or.inr (Or.inr ⟨h1, Or.inr h3⟩)
+        · rw [stopPhase_unexpected_after_int child hs start i s h1 hi h2 h3] at h; cases h
+  · by_cases h2 : s.curr.type = .closeSqBrace
+    · exact Or.inl h2
+    · by_cases h3 : s.curr.type = .colon
+      · exact Or.inr (Or.inl h3)
+      · rw [stopPhase_unexpected child hs start s h1 h2 h3] at h; cases h
+
+theorem indexP_invalidIndex (child : Option INode) (s : PState)
+    (h1 : s.curr.type = .integerLiteral) (hi : parseInt64 s.curr.value = none) :
+    indexP child s = .error .invalidIndex := by
+  rw [indexP_eq]
+  simp [startPhase, atoiP, bind_run, map_run, currType_run, nextType_run, currValue_run, fail_run, pure_run, h1, hi]
+
+/-- **Inversion, first part**: a bracket specifier starts with `:` or with an integer followed by `]` or `:` -/
+theorem indexP_ok_inv (child : Option INode) (s : PState) (r : (INode × Bool) × PState)
+    (h : indexP child s = .ok r) :
+    s.curr.type = .colon ∨ (s.curr.type = .integerLiteral ∧ (s.next.type = .closeSqBrace ∨ s.next.type = .colon)) := by
+  by_cases h1 : s.curr.type = .integerLiteral
+  · cases hi : parseInt64 s.curr.value with
+    | none => rw [indexP_invalidIndex child s h1 hi] at h; cases h
+    | some i =>
+      by_cases h2 : s.next.type = .closeSqBrace
+      · exact Or.inr ⟨h1, Or.inl h2⟩
+      · by_cases h3 : s.next.type = .colon
+        · exact Or.inr ⟨h1, Or.inr h3⟩
+        · rw [indexP_unexpected_after_int child i s h1 hi h2 h3] at h; cases h
+  · by_cases h2 : s.curr.type = .colon
+    · exact Or.inl h2
+    · rw [indexP_unexpected child s h1 h2] at h; cases h
 
 /-! ### the multi-select hash -/
 
